@@ -77,8 +77,8 @@ Definition xform_key (k : str) : str :=
 
 Definition attr_key (local : str) : str :=
   let local := if snakeCaseKeys o then replace_char "-"%char "_"%char local else local in
-  let key := attrPrefix o ++ local in
-  if lowerCase o then to_lower key else key.
+  (* fix 7400dc9: the attribute name is lower-cased, the prefix is kept as set *)
+  if lowerCase o then attrPrefix o ++ to_lower local else attrPrefix o ++ local.
 
 Definition attr_entries (a : list xattr) : entries :=
   fold_left (fun na at_ =>
